@@ -11,11 +11,13 @@ import (
 	"runtime/debug"
 	"sort"
 	"strings"
+	"time"
 
 	"github.com/influxdata/kapacitor"
 	client "github.com/influxdata/kapacitor/client/v1"
 	"github.com/influxdata/kapacitor/tick"
 	"github.com/influxdata/kapacitor/tick/ast"
+	imodels "github.com/influxdata/influxdb/models"
 
 	"verifharness/kit"
 )
@@ -400,7 +402,7 @@ func execCase(ops []string) (out []string) {
 				}
 				cls := f()
 				w.st.flt = 0
-				obs := fmt.Sprintf("%s ntx=%d", cls, w.st.ntx)
+				obs := fmt.Sprintf("%s ntx=%d", cls, w.st.count())
 				if crash >= 0 {
 					if !w.st.done { // fewer transactions than k: the request completed before the crash
 						w.st.snap = w.st.ntx
@@ -456,6 +458,11 @@ func execCase(ops []string) (out []string) {
 				cls, _ := w.do("DELETE", base+"/tasks/"+t[1], nil)
 				return cls
 			})
+		case "die": // die <id>: the executing task <id> dies at run time (poison point -> its @gate() node fails)
+			guard(line, func() string {
+				w.st.reset(-1, "")
+				return w.kill(t[1])
+			})
 		case "restart": // restart fail=
 			guard(line, func() string {
 				if err := w.restart(); err != nil {
@@ -472,6 +479,55 @@ func execCase(ops []string) (out []string) {
 		}
 	}
 	return out
+}
+
+// every (db, rp) and measurement a pool task can listen on
+var poisonDBRPs = [][2]string{{"db", "rp"}, {"db2", "rp2"}, {"x", "y"}, {"pdb", "prp"}, {"qdb", "qrp"}}
+var poisonMeasurements = []string{"m0", "m1", "m2", "m3", "m4", "x", "y"}
+
+// kill makes the executing task `id` die on its own: a poison point addressed to it is written through
+// TaskMaster.WritePoints on every db/rp/measurement of the pool; the @gate() node of that task fails, the task ends
+// with an error, and the goroutine task_store.startTask left behind stops it and records the error. Waits until
+// that goroutine is done (task no longer executing AND the error written), so that the next request is handled
+// alone. A task that does not execute is left alone.
+func (w *world) kill(id string) string {
+	if !w.tm.IsExecuting(id) {
+		return "ok ntx=0"
+	}
+	// UDFNode notices that its UDF is gone only when it tries to hand it the NEXT point (udf.go runUDF: the abort
+	// callback just closes a channel the writer loop selects on), so points keep coming until the task is gone.
+	send := func() string {
+		for _, d := range poisonDBRPs {
+			var pts []imodels.Point
+			for _, m := range poisonMeasurements {
+				p, err := imodels.NewPoint(m, imodels.NewTags(map[string]string{victimTag: id}), imodels.Fields{"v": int64(1)}, time.Unix(1, 0))
+				if err != nil {
+					return "poison-error"
+				}
+				pts = append(pts, p)
+			}
+			if err := w.tm.WritePoints(d[0], d[1], imodels.ConsistencyLevelAll, pts); err != nil {
+				return "write-error"
+			}
+		}
+		return ""
+	}
+	deadline := time.Now().Add(5 * time.Second)
+	for round := 0; time.Now().Before(deadline); round++ {
+		if !w.tm.IsExecuting(id) && w.st.count() >= 1 {
+			return fmt.Sprintf("ok ntx=%d", w.st.count())
+		}
+		if round%10 == 0 && w.tm.IsExecuting(id) {
+			if e := send(); e != "" {
+				return e
+			}
+		}
+		time.Sleep(time.Millisecond)
+	}
+	if w.tm.IsExecuting(id) {
+		return "still-executing" // the task did not die, or died and is still shown as executing
+	}
+	return fmt.Sprintf("ok ntx=%d", w.st.count())
 }
 
 func tmplTok(id string) string {
